@@ -766,6 +766,15 @@ func (c *fctx) call(s *scope, x *ast.CallExpr, hint *gty) (string, *gty) {
 			if _, ok := externals[key]; ok {
 				return c.external(s, key, x)
 			}
+			if key == "reflect.DeepEqual" && len(x.Args) == 2 {
+				a, at := c.expr(s, x.Args[0], nil)
+				b, bt := c.expr(s, x.Args[1], at)
+				// DeepEqual follows pointers: on a slice of opaque tokens (the VALUES the pointers stand for) it is list equality
+				if at.lean() == bt.lean() && at.k == "slice" && (at.elem.k == "opaque" || c.tr.eqSafe(at.elem)) {
+					return "(" + a + " == " + b + ")", tBool
+				}
+				trFail("reflect.DeepEqual on %s", at.lean())
+			}
 			if key == "slices.Delete" && len(x.Args) == 3 {
 				a, at := c.expr(s, x.Args[0], hint)
 				if at.k != "slice" {
@@ -880,6 +889,12 @@ func (c *fctx) call(s *scope, x *ast.CallExpr, hint *gty) (string, *gty) {
 				return c.callFn(s, fi, nil, x.Args)
 			}
 			trFail("call of %s.%s (not in the translated set)", id.Name, sel.Sel.Name)
+		}
+		// err.Error(): the text that identifies the error value
+		if id, ok := sel.X.(*ast.Ident); ok && sel.Sel.Name == "Error" && len(x.Args) == 0 {
+			if v := s.lookup(id.Name); v != nil && v.t.k == "error" {
+				return "(Option.getD " + v.lean + " \"\")", tString
+			}
 		}
 		// method of an opaque foreign value
 		if id, ok := sel.X.(*ast.Ident); ok {
@@ -999,6 +1014,13 @@ func assigned(stmts []ast.Stmt, s *scope) []string {
 		case *ast.AssignStmt:
 			for _, l := range x.Lhs {
 				add(l, x.Tok == token.DEFINE)
+			}
+			if len(x.Rhs) == 1 {
+				if call, ok := x.Rhs[0].(*ast.CallExpr); ok && exprString(call.Fun) == "json.Unmarshal" && len(call.Args) == 2 {
+					if ref, ok := call.Args[1].(*ast.UnaryExpr); ok {
+						add(ref.X, false)
+					}
+				}
 			}
 		case *ast.IncDecStmt:
 			add(x.X, false)
@@ -1306,6 +1328,28 @@ func (c *fctx) assign(s *scope, x *ast.AssignStmt, d int) string {
 			trFail("op-assignment type")
 		}
 		return ind(d) + "let " + v.lean + " : " + v.t.lean() + " := " + val + "\n"
+	}
+	// err := json.Unmarshal([]byte(str), &v) with the error checked: the decoder returns the value it leaves and the error
+	if len(x.Lhs) == 1 && len(x.Rhs) == 1 {
+		if call, ok := x.Rhs[0].(*ast.CallExpr); ok && exprString(call.Fun) == "json.Unmarshal" && len(call.Args) == 2 {
+			conv, ok1 := call.Args[0].(*ast.CallExpr)
+			ref, ok2 := call.Args[1].(*ast.UnaryExpr)
+			if ok1 && ok2 && exprString(conv.Fun) == "[]byte" && ref.Op == token.AND {
+				if id, ok := ref.X.(*ast.Ident); ok {
+					v := s.lookup(id.Name)
+					a, at := c.expr(s, conv.Args[0], tString)
+					if v != nil && v.t.k == "struct" && at.k == "string" {
+						key := "json.UnmarshalE:" + v.t.name
+						if _, ok := externals[key]; !ok {
+							externals[key] = &extFn{"ext_UnmarshalE_" + v.t.name, "String → " + v.t.name + " → " + v.t.name + " × Option String", nil}
+						}
+						e := c.target(s, x.Lhs[0], tError, define)
+						return ind(d) + "match " + c.useExt(key).param + " " + a + " " + v.lean + " with\n" + ind(d) + "| (" + v.lean + ", " + e + ") =>\n"
+					}
+				}
+			}
+			trFail("json.Unmarshal form")
+		}
 	}
 	// comma-ok map read
 	if len(x.Lhs) == 2 && len(x.Rhs) == 1 {
